@@ -26,15 +26,14 @@ RULE = ("29 generic radices x {f32,f64} x G-bits (every binade min/max/half/rand
 TECHNIQUE = ("Lean 4 model of the whole generic-radix writer with exactly modelled IEEE arithmetic, tied byte-exactly to radix.rs by differential correspondence; theorems on the model for "
              "every finite f32/f64 and every generic radix (well-formedness, termination inside the scratch buffer, integer exactness, per-step exactness); "
              "exact rational evaluation of each output by the Lean driver for the ulp clause; re-parse correspondence")
-LEVEL_TEXT = ("Proved in Lean on the model of the whole writer (code as in /repo after dbb7ae7, f386e72, 2de23fc), for EVERY finite binary32/binary64 pattern and every generic "
+LEVEL_TEXT = ("Proved in Lean on the model of the whole writer (code as in /repo after the repairs dbb7ae7, f386e72, 2de23fc, b4fa7d0, fb86b3a, a288c48), for EVERY finite binary32/binary64 pattern and every generic "
               "radix (no bound): (a) radix_wellformed — for every option set the text is digits below the radix, at most one decimal point, at most one exponent, no exclusion; "
               "(b) radix_generate_total, radix_write_total — the loops stay inside the scratch buffer and nothing panics except a too short output slice; (c) "
               "radix_integer_exact_full / radix_integer_text_full — integers below 2^53 / 2^24 are written exactly (IeeeExact proved: ieeeExact_modelOps); (d) the ulp clause, "
               "radix_error_bound : C07_radix_error_bound — the generated digits denote a number whose nearest float is within 1364 (binary64) / 246 (binary32) patterns of the input "
               "(judge limits 2048 / 256): radix_error_bound_small_partial (0 <= |x| < 1: 1364 / 196, relative error 2^-p per step, at most 679 / 95 digits), "
               "radix_error_bound_mid_partial (1 <= |x| < 2^p: 34), radix_error_bound_big_partial (|x| >= 2^p: 1340 / 246, zero padding within (1 +- 2^-p)^z, z <= 613 / 66). "
-              "Text level: with default max_significant_digits and PositionalFits (at most 232 digits; always true for 1 <= |x| < 2^p) the layout uses all digits "
-              "(radix_layout_keeps_all_digits); the excluded case is the recorded finding C07-generic-radix-positional-truncation (positional_truncation_witness). Still measured, "
+              "Text level: since b4fa7d0 the positional digit window starts at the first significant digit, so the layout uses all digits unless more than 232 digits are SIGNIFICANT (radix_layoutW_keeps_all_digits under SigFits; before the repair leading zeros used up the window: positional_truncation_root_cause). Still measured, "
               "not proved: the numeric value of the laid-out text (trailing-zero trimming, exponent) and the re-parse, judged exactly on every output.")
 LEVEL_NOTE = ("Trusted: Lean kernel; rustc; hardware IEEE-754 arithmetic incl. exact fmod; differential harness and generators (the model is hand-written, tied by correspondence). "
               "Proof level for all three clauses on the model at digit level; text-value and re-parse are judged exactly on the stream.")
